@@ -744,7 +744,7 @@ def c14_drift_flags(rep, tier, seed):
     rep.rules.append("2 000 (thorough: 40 000) drift scenarios (1-3 files, edit scripts rendered as git does, cross-file and same-file `affects`, plain named targets) under a random subset of the seven validators given to --enable or --disable")
     rows = K.run_component(rep.prop, "diff flags", [], seed, n_for(tier, 2000, 40000), tier)
     K.correspondence(rep, rows, "diff flags", has_blocks, known=K.load_known("C01"))
-    cli_correspondence(rep, rows, "diff flags", n_for(tier, 200, 2000), subs=("validate",), known=K.load_known("C01"))
+    cli_correspondence(rep, rows, "diff flags", n_for(tier, 500, 5000), subs=("validate",), known=K.load_known("C01"))
 
 
 def c14_extra(rep, tier, seed, rows):
